@@ -39,9 +39,12 @@ func c01Events(r *c01Req, ops []vOp, calls []vIssueCall, foreignWrites []int64) 
 	if len(ops) > 0 {
 		evs = append(evs, c01Ev{float64(ops[0].Seq) - 0.7, fmt.Sprintf("begin:%d", r.id)})
 	}
+	// a read of the three-key bundle that overlaps another request's save transaction (first
+	// to last write) in any way may see a mixture of old and new keys: such a history is not
+	// compared with the LTS, whose reads and saves are atomic
 	torn := func(first, last int64) {
-		for _, w := range foreignWrites {
-			if w > first && w < last {
+		for i := 0; i+1 < len(foreignWrites); i += 2 {
+			if first <= foreignWrites[i+1] && foreignWrites[i] <= last {
 				evs = append(evs, c01Ev{float64(last) - 0.2, "TORN"})
 				return
 			}
@@ -379,11 +382,31 @@ func c01Scenario(t *testing.T, o *vOut, seed int64, maxN, scIdx int) {
 					contacted[r.id] = true
 				}
 			}
+			// write transactions of the other requests as [first, last] pairs
 			var foreign []int64
-			for _, op := range ops {
-				if op.Req != r.id && (op.Kind == "Store" || op.Kind == "Delete") {
-					foreign = append(foreign, op.Seq)
+			cur := map[int][2]int64{}
+			flush := func(req int) {
+				if iv, ok := cur[req]; ok {
+					foreign = append(foreign, iv[0], iv[1])
+					delete(cur, req)
 				}
+			}
+			for _, op := range ops {
+				if op.Req == r.id {
+					continue
+				}
+				if op.Kind == "Store" || op.Kind == "Delete" {
+					if iv, ok := cur[op.Req]; ok {
+						cur[op.Req] = [2]int64{iv[0], op.Seq}
+					} else {
+						cur[op.Req] = [2]int64{op.Seq, op.Seq}
+					}
+				} else if op.Kind == "Unlock" {
+					flush(op.Req)
+				}
+			}
+			for req := range cur {
+				flush(req)
 			}
 			evs, p := c01Events(r, rops, rcalls, foreign)
 			if os.Getenv("VERIF_DEBUG") != "" {
